@@ -158,6 +158,15 @@ using srv_includes = b::server<
     inc_target_b,
     b::no_gap_service_for_gatt_servers >;
 
+// 6. a characteristic that pins only its declaration (attribute_handle< H >) and has more than two attributes
+using srv_pinned = b::server<
+    svc16< 0x6000,
+        chr16< 0x6001, b::bind_characteristic_value< std::uint8_t, &v8a >, b::notify, b::attribute_handle< 0x20 > >,
+        chr16< 0x6002, b::bind_characteristic_value< std::uint8_t, &v8b >, b::characteristic_name< desc_str >, b::indicate, b::attribute_handle< 0x30 > >,
+        chr16< 0x6003, b::bind_characteristic_value< std::uint8_t, &v8c > >
+    >,
+    b::no_gap_service_for_gatt_servers >;
+
     // compile-time permutation test for a tuple of std::integral_constant< std::size_t, I >
     template < class T > struct is_permutation;
     template < class... Is >
